@@ -151,7 +151,8 @@ pub fn val_for_n(kind: Kind, names: BoxedStrategy<AName>) -> BoxedStrategy<Val> 
         Kind::Pairs { strict } => vec((u16b(), tail()), 0..=4)
             .prop_map(move |v| Val::Pairs(if strict { sorted_pairs(v) } else { v }))
             .boxed(),
-        Kind::Windows => vec((u8b(), vec(any::<u8>(), 1..=32).prop_map(Bytes)), 0..=4)
+        // RFC 4034 bitmaps are 1..=32 octets; an empty one is representable (the parser accepts it), so it is generated too
+        Kind::Windows => vec((u8b(), prop_oneof![1 => Just(Bytes(vec![])), 10 => vec(any::<u8>(), 1..=32).prop_map(Bytes)]), 0..=4)
             .prop_map(|v| Val::Windows(sorted_windows(v)))
             .boxed(),
         Kind::GwType => unreachable!(),
@@ -359,11 +360,11 @@ pub fn pick(i: u16, len: usize) -> usize {
 /// names arranged as suffix trees over a tiny label pool: owner, question and RDATA names share
 /// suffixes all the time, and pairs differ only in a leading or a trailing label
 pub fn share_name() -> BoxedStrategy<AName> {
-    let pool = vec!["a", "b", "c", "example", "com", "a"];
+    let pool = vec!["a", "b", "c", "example", "com", "a", "local"];
     prop_oneof![
         1 => Just(AName(vec![])),
         4 => vec(select(pool.clone()), 1..=4).prop_map(|v| AName(v.into_iter().map(|s| Bytes(s.as_bytes().to_vec())).collect())),
-        6 => (vec(select(vec!["a", "b", "www", "c"]), 0..=2), select(vec![vec!["example", "com"], vec!["com"], vec!["example", "org"], vec!["b", "example", "com"]]), proptest::option::weighted(0.15, select(vec!["a", "x"])))
+        6 => (vec(select(vec!["a", "b", "www", "c"]), 0..=2), select(vec![vec!["example", "com"], vec!["com"], vec!["example", "org"], vec!["b", "example", "com"], vec!["local"], vec!["_tcp", "local"], vec!["_srv", "_tcp", "local"], vec!["Local"]]), proptest::option::weighted(0.15, select(vec!["a", "x"])))
             .prop_map(|(lead, tail, extra)| {
                 let mut v: Vec<&str> = lead;
                 v.extend(tail);
